@@ -62,6 +62,7 @@ def names_view(model):
 def run_history(cfg, ops, seed, counters, reopen_at=None, drain=True):
     from harness.props import c01
     vio = []
+    released = []
     env.reset(seed)
     s = driver.Session(cfg, seed).new()
     for i, op in enumerate(ops):
@@ -77,9 +78,13 @@ def run_history(cfg, ops, seed, counters, reopen_at=None, drain=True):
             s.close()
             s = s2
         before = names_view(s.model)
+        contents_before = {cid: c for cid, c in s.model.contents.items() if cid != 'catalog' and c.length >= 64}
         out = s.step(op)
         if not out.ok:
             continue
+        for cid, c in contents_before.items():
+            if cid not in s.model.contents:
+                released.append((op['op'], cid, c.bytes()[:48], (c.length + 2047) // 2048))
         if s.model_errors:
             vio.append({'key': 'accepted-unknown:%s' % op['op'], 'detail': '%s accepted although the model has no such entry: %s' % (op['op'], s.model_errors[-1][1])})
             break
@@ -97,6 +102,11 @@ def run_history(cfg, ops, seed, counters, reopen_at=None, drain=True):
             for v in c04.check_image(img, s.model, counters):
                 if v['key'].startswith('share:') or v['key'].startswith('overlap:'):
                     vio.append(v)
+            final = img.getvalue()
+            for opname, cid, probe, sect in released:
+                counters['released_contents_checked'] = counters.get('released_contents_checked', 0) + 1
+                if final.find(probe) >= 0:
+                    vio.append({'key': 'leak:%s:bytes' % opname, 'detail': 'content %r was released by %s (last reference gone) but its bytes are still stored in the image' % (cid, opname)})
             if drain:
                 vio += drain_one(s, img.getvalue(), counters)
     s.close()
@@ -164,7 +174,14 @@ def build(cs, tier):
         if h.apply(bop).ok:
             h.apply({'op': 'add_eltorito', 'bootfile_path': bop['iso_path']})
             h.extend(rng.choice([2, 6]))
-            if rng.random() < 0.5:
+            if rng.random() < 0.4:
+                # hide the boot file completely: El Torito now holds the last reference
+                for ns, p in list(h.sess.model.names_of(bop['cid'])):
+                    h.apply({'op': 'rm_hard_link', '%s_path' % ns: p})
+                h.extend(rng.choice([0, 3]))
+                h.apply({'op': 'rm_eltorito'})
+                h.extend(rng.choice([0, 3]))
+            elif rng.random() < 0.5:
                 h.apply({'op': 'rm_eltorito'})
                 h.extend(rng.choice([0, 4]))
     ops = list(h.ops)
